@@ -2,6 +2,7 @@ package main
 
 import (
 	"fmt"
+	"sort"
 
 	"github.com/ethereum/go-ethereum/common"
 
@@ -21,6 +22,11 @@ type mnode struct {
 	// staleParentEdge is the transition of that flattened parent: the replaced diff layer
 	// object still serves the nodes it modified.
 	staleParentEdge *statehist.Edge
+	// staleRoots: roots of the layer objects that the implementation still reaches through
+	// the stale pointer below the replaced parent object: the former disk layer (and, if more
+	// than one layer was flattened at once, the flattened layers below the parent).
+	staleRoots []common.Hash
+	seq        int // insertion order (= order of the entries in the lookup index lists)
 }
 
 // model mirrors the exported behaviour of pathdb's layer tree: which roots are live, how
@@ -37,10 +43,18 @@ type model struct {
 	tainted bool
 	forks   int
 	skipped int
+	seq     int
+	// phantom mirrors the wrong entries of layerTree.descendants: fillAncestors of a layer
+	// that is inserted above a stale-linked layer F walks F's stale pointer and registers
+	// the new layer as a descendant of the roots in F.staleRoots (states that are not among
+	// its ancestors any more, or never were on its branch: the former disk layer). An entry
+	// descendants[r] is deleted only when a layer with root r is removed from the tree (or on
+	// a full commit). phantom[r][s]: the implementation believes that s descends from r.
+	phantom map[common.Hash]map[common.Hash]bool
 }
 
 func newModel(genesis *statehist.State, max int) *model {
-	return &model{max: max, base: genesis, diffs: map[common.Hash]*mnode{}}
+	return &model{max: max, base: genesis, diffs: map[common.Hash]*mnode{}, phantom: map[common.Hash]map[common.Hash]bool{}}
 }
 
 func (m *model) live(root common.Hash) bool {
@@ -126,7 +140,16 @@ func (m *model) update(e *statehist.Edge) (expect, string) {
 	if len(m.children(parent)) > 0 {
 		m.forks++
 	}
-	m.diffs[root] = &mnode{st: e.Child, parent: parent, edge: e}
+	m.seq++
+	m.diffs[root] = &mnode{st: e.Child, parent: parent, edge: e, seq: m.seq}
+	if f := m.staleAncestor(root); f != nil {
+		for _, r := range f.staleRoots {
+			if m.phantom[r] == nil {
+				m.phantom[r] = map[common.Hash]bool{}
+			}
+			m.phantom[r][root] = true
+		}
+	}
 	m.cap(root, m.max)
 	if m.tainted {
 		return expEither, "add-on-stale-link"
@@ -169,6 +192,7 @@ func (m *model) cap(root common.Hash, layers int) {
 		}
 		m.base = diff.st
 		m.diffs = map[common.Hash]*mnode{}
+		m.phantom = map[common.Hash]map[common.Hash]bool{}
 		m.caps++
 		return
 	}
@@ -204,11 +228,26 @@ func (m *model) cap(root common.Hash, layers int) {
 		}
 	}
 	walk(target.st.Root)
+	staleRoots := []common.Hash{m.base.Root}
+	for _, n := range m.path(target.st.Root) {
+		if n != target {
+			staleRoots = append(staleRoots, n.st.Root)
+		}
+	}
 	for c, n := range keep {
 		if n.parent == target.st.Root && n != diff {
 			n.staleLink = true
 			n.staleParentEdge = target.edge
+			n.staleRoots = staleRoots
 			_ = c
+		}
+	}
+	// descendants[r] is deleted for every removed layer: the old disk layer and every diff
+	// layer that is neither a survivor nor the flattened target itself
+	delete(m.phantom, m.base.Root)
+	for r := range m.diffs {
+		if _, ok := keep[r]; !ok && r != target.st.Root {
+			delete(m.phantom, r)
 		}
 	}
 	m.base = target.st
@@ -268,4 +307,53 @@ func (m *model) staleNodeReadFails(root common.Hash, modifies func(e *statehist.
 		root = n.parent
 	}
 	return false
+}
+
+// staleAncestor returns the stale-linked layer strictly below root on its parent chain.
+func (m *model) staleAncestor(root common.Hash) *mnode {
+	first := true
+	for root != m.base.Root {
+		n := m.diffs[root]
+		if n == nil {
+			return nil
+		}
+		if n.staleLink && !first {
+			return n
+		}
+		first = false
+		root = n.parent
+	}
+	return nil
+}
+
+// phantomTip emulates lookup.accountTip / storageTip for a flat read at root on the
+// descendants map as the stale links left it: the entries of a key are the live diff layers
+// that modified it, newest first; the first one that is root itself, an ancestor of root, or
+// a layer of which root is wrongly registered as a descendant (phantom) is taken. It
+// returns that layer only in the last case (the index resolves the key to a layer that is
+// not on the path of root), nil otherwise. For a root that is not live any more (retained
+// reader) the ancestry is unknown: the newest phantom candidate is returned.
+func (m *model) phantomTip(root common.Hash, modifies func(e *statehist.Edge) bool) *mnode {
+	var cand []*mnode
+	for _, n := range m.diffs {
+		if modifies(n.edge) {
+			cand = append(cand, n)
+		}
+	}
+	sort.Slice(cand, func(i, j int) bool { return cand[i].seq > cand[j].seq })
+	anc := map[common.Hash]bool{}
+	if m.isDiff(root) {
+		for _, n := range m.path(root) {
+			anc[n.st.Root] = true
+		}
+	}
+	for _, n := range cand {
+		if anc[n.st.Root] {
+			return nil
+		}
+		if m.phantom[n.st.Root][root] {
+			return n
+		}
+	}
+	return nil
 }
